@@ -44,6 +44,18 @@ CHECKS = {
  "C07": (MC, GXT,
          "1-2 real ConsumerGroup members (own clients) against a simulated group coordinator (join/sync/heartbeat/leave state machine, commit admission by member/generation) and partition leaders; handler behaviours {returns at once, reads k then returns, reads until closed, Setup error}; end triggers {context cancel, second member joins, fencing answers, claim ends, Close}; strategies range/round-robin/sticky; committed offsets none/valid/out of range; all executions with <=B deviations (B=2 quick for one member, 1-2 for two); oracle: per-session life-cycle automaton (Setup once, <=1 ConsumeClaim per claimed partition, Cleanup after all claims, final commit before Consume returns), claim start offsets, identities carried by Sync/Heartbeat/OffsetCommit, fresh identity after fencing, no record skipped across sessions.",
          "heartbeats, fetch rounds, claim start and subscriptions are gated so that the session's goroutines never race for one connection within a step; time passes only while every ticker-driven loop is idle; sticky assignment only with one member (its plan depends on Go map order with two).", "§6 C07"),
+ "C08": (MC, "explicit-state breadth-first search over group states through the real BalanceStrategy.Plan / AssignmentData / user-data decode path (visited set on a canonical key, differential unpruned search), cases in watched child processes",
+         "Every group of <=3 members x <=3 topics x <=3 (thorough 4) partitions x every subscription pattern for range and round-robin; sticky: chains of rebalances (join fresh / with stale or conflicting user data, leave, subscription change, partitions added/removed, topic deleted) to depth 2-3 (quick) / 3-5 (thorough); oracle: every partition with a subscriber assigned exactly once, only to a subscriber, no unknown member / nonexistent partition, Plan returns.",
+         "the sticky assignor iterates Go maps: each case is evaluated R>=3 (quick) / 10 (thorough) times in different presentation orders until no new plan appears; map orders are sampled, not enumerated.", "§6 C08/C13"),
+ "C13": (MC, "same explicit-state search as C08, judged by the balance/stickiness oracle",
+         "Same state graph as C08; oracle: range contiguous ranges with sizes differing <=1 per topic, round-robin totals of identically subscribed members differ <=1, sticky balanced in Kafka's sense (written from subscriptions), fixed point on unchanged input, keep-on-leave and no-move-between-old-members-on-join with identical subscriptions, no pairwise swap within a topic.",
+         "stickiness clauses are judged only for plans fed back with increasing generations and only on plans valid per C08.", "§6 C08/C13"),
+ "C12": (MC, GXT,
+         "Close/AsyncClose enabled as an action at every decision point of the producer, partition-consumer, offset-manager and consumer-group scenarios (closeany), combined with <=B other deviations (faults, postponements); oracle: Close/Consume return, public channels are closed after their last event, no panic (recovered PanicHandler or process death), second Close harmless.",
+         PNOTE + " Goroutine leaks after Close are reported as INFO only.", "§6 C12"),
+ "C14": (MC, GXT,
+         "One real Broker on an in-memory connection, 2-4 callers x 1-2 calls, MaxOpenRequests 1-3, server actions on the oldest unanswered request {correct, swapped / unknown correlation id, truncated header/body, oversized / undersized / negative length, stall, abrupt close}, read-timeout ticks, Close racing; all executions with <=4 (quick) / <=5-7 (thorough) deviations; oracle: own response or error, mismatching id never delivered, fail-stop after a fault, requests on the wire <= MaxOpenRequests.",
+         "one call enters per step (callers never race for the broker lock within a step); one server fault per execution.", "§6 C14"),
 }
 NOT_YET = {}
 props = [json.loads(l) for l in open(os.path.join(ROOT, "properties.jsonl"))]
